@@ -195,6 +195,32 @@ def shard(ctx):
                     ctx.res.distinct.add((mode, "disjoint", len(Pm), tuple(order), r["code"]))
                     if len(ctx.res.samples) < 2:
                         ctx.sample({"merged": M, "data": Dm, "params": Pm, "order": list(order), "mode": mode, "statuses": st, "exit": r["code"]})
+        # ---- the data document on STDIN (no --data) + -i: the same merged verdicts, and the same refusal of a doubly defined key
+        if not extra_data:
+            iargs = iargs_for(range(len(Pm)))
+            for structured in (False, True):
+                tail = ["--structured", "-S", "none", "-o", "json"] if structured else ["-S", "none", "-o", "json"]
+                mode = "stdin-structured" if structured else "stdin-plain"
+                r = ctx.w.run({"k": "cli", "argv": ["validate", "-r", "{S}/r.guard"] + iargs + tail, "files": fl, "symlinks": sl, "stdin": fl["d.json"]})
+                ctx.res.cases += 1
+                ctx.res.counts["stdin_data_runs"] += 1
+                case = {"rules": rtext, "files": fl, "symlinks": sl, "order": list(range(len(Pm))), "structured": structured, "overlap": overlap, "stdin": True, "iargs": iargs}
+                if core.crash_signature(r):
+                    ctx.inconclusive("crash")
+                    continue
+                if overlap:
+                    if r.get("r") == "ok":
+                        ctx.violation("overlap:%s:%s:silently-accepted" % (mode, which), "data on STDIN: conflicting top-level key accepted silently: exit %s" % r.get("code"), case)
+                    continue
+                ref = ctx.w.run({"k": "cli", "argv": ["validate", "-r", "{S}/r.guard"] + tail, "files": fl, "symlinks": sl, "stdin": fl["m.json"]})
+                ref_st, st = statuses_of(ref, structured), statuses_of(r, structured)
+                if ref_st is None:
+                    ctx.inconclusive("reference-error-or-crash")
+                elif st != ref_st or r.get("code") != ref.get("code"):
+                    ctx.violation("disjoint:%s:verdicts-differ" % mode, "data on STDIN with -i: verdicts %s (exit %s) differ from the pre-merged document on STDIN %s (exit %s)" % (
+                        st, r.get("code"), ref_st, ref.get("code")), case)
+                else:
+                    ctx.res.distinct.add((mode, "disjoint", r["code"]))
         # ---- payload + -i (plain and structured) : same merged verdicts
         if not overlap and not extra_data:
             iargs = iargs_for(range(len(Pm)))
@@ -219,6 +245,13 @@ def shard(ctx):
 def replay(case, w):
     fl = case["files"]
     sl = case.get("symlinks", {})
+    if case.get("stdin"):
+        tail = ["--structured", "-S", "none", "-o", "json"] if case["structured"] else ["-S", "none", "-o", "json"]
+        r = w.run({"k": "cli", "argv": ["validate", "-r", "{S}/r.guard"] + case["iargs"] + tail, "files": fl, "symlinks": sl, "stdin": fl["d.json"]})
+        if case.get("overlap"):
+            return r.get("r") != "ok", "overlap with data on STDIN: %s" % r.get("code")
+        ref = w.run({"k": "cli", "argv": ["validate", "-r", "{S}/r.guard"] + tail, "files": fl, "symlinks": sl, "stdin": fl["m.json"]})
+        return statuses_of(r, case["structured"]) == statuses_of(ref, case["structured"]) and r.get("code") == ref.get("code"), "stdin run %s vs merged %s" % (r.get("code"), ref.get("code"))
     structured = case["structured"]
     tail = ["--structured", "-S", "none", "-o", "json"] if structured else ["-S", "none", "-o", "json"]
     iargs = case.get("iargs") or [x for i in case["order"] for x in ("-i", "{S}/p%d.json" % i)]
